@@ -291,6 +291,19 @@ func (h *vHist) doRollback() {
 	h.resetWorkToLatest()
 }
 
+// doOverwrite rolls back to an earlier retained version (LoadVersionForOverwriting) and updates the model.
+func (h *vHist) doOverwrite(target int64, tag string) {
+	err := h.tree.LoadVersionForOverwriting(target)
+	vAssert(err == nil, tag+":loadversionforoverwriting-err")
+	for v := target + 1; v <= h.latest; v++ {
+		delete(h.vers, v)
+		delete(h.refRoots, v)
+		delete(h.refHash, v)
+	}
+	h.latest = target
+	h.resetWorkToLatest()
+}
+
 func (h *vHist) resetWorkToLatest() {
 	if h.latest == 0 {
 		h.work = &vModel{}
